@@ -108,6 +108,7 @@ type loopCut struct {
 	variant string
 	entry   *State
 	failed  string // fault mode: "some dependency has failed" at the loop head
+	globals map[*Cell]string // package-level variables at the loop head
 }
 
 func (fr *Frame) copy() *Frame {
@@ -1603,6 +1604,14 @@ func (x *Exec) loopEntry(st *State, fr *Frame, lp *Loop, pv map[*ssa.Phi]Val) {
 			cut.failed = v.E
 		}
 	}
+	// package-level variables as they are at the loop head: the loop body must hand them back
+	// unchanged (they are not havocked here unless the body stores to them)
+	cut.globals = map[*Cell]string{}
+	for _, gc := range globalCells {
+		if tv, ok := st.cells[gc].(TV); ok {
+			cut.globals[gc] = tv.E
+		}
+	}
 	fr.cutLoops[lp.ordinal] = cut
 	// smoke: invariants are satisfiable together with the path
 	x.smoke(st, fr, name+".inv")
@@ -1664,6 +1673,33 @@ func (x *Exec) loopBack(st *State, fr *Frame, lp *Loop, pv map[*ssa.Phi]Val) {
 			now = v.E
 		}
 		x.oblige(st, fr, fmt.Sprintf("inv.%d.C15.nofail.step", lp.ordinal), "inv.step", "C15.nofail", tImp(now, cut.failed), nil, nil)
+	}
+	{
+		var ids []int
+		byID := map[int]*Cell{}
+		for gc := range cut.globals {
+			ids = append(ids, gc.id)
+			byID[gc.id] = gc
+		}
+		sort.Ints(ids)
+		for _, id := range ids {
+			gc := byID[id]
+			if cur, ok := st.cells[gc].(TV); ok && cur.E != cut.globals[gc] {
+				x.oblige(st, fr, fmt.Sprintf("inv.%d.*.global.%s.step", lp.ordinal, sanitizeIdent(gc.name)), "frame", "frame", tEq(cut.globals[gc], cur.E), nil, nil)
+			}
+		}
+		for _, g := range sortedGlobals() {
+			gc := globalCells[g]
+			if _, seen := cut.globals[gc]; seen {
+				continue
+			}
+			// first touched inside the loop body: compare with the value it was given then
+			init, ok1 := st.ghost[fmt.Sprintf("ginit:%d", gc.id)].(TV)
+			cur, ok2 := st.cells[gc].(TV)
+			if ok1 && ok2 && init.E != cur.E {
+				x.oblige(st, fr, fmt.Sprintf("inv.%d.*.global.%s.step", lp.ordinal, sanitizeIdent(gc.name)), "frame", "frame", tEq(init.E, cur.E), nil, nil)
+			}
+		}
 	}
 	if cut.variant != "" {
 		var nv string
@@ -1747,4 +1783,13 @@ func (x *Exec) roGlobalCell(c *Cell) bool {
 		}
 	}
 	return false
+}
+
+func sortedGlobals() []*ssa.Global {
+	var gs []*ssa.Global
+	for g := range globalCells {
+		gs = append(gs, g)
+	}
+	sort.Slice(gs, func(i, j int) bool { return gs[i].String() < gs[j].String() })
+	return gs
 }
